@@ -324,7 +324,7 @@ def post(ctx, args, kind, value):
     # every document up to (and including) a hard error reached its executor call
     n_calls = len(docs)
     for d in docs:
-        if d.kind == "hard-error":
+        if d.kind in ("hard-error", "aborted"):
             n_calls = d.d + 1
             break
     if len(calls) != n_calls:
